@@ -684,7 +684,7 @@ def check_requests(reqs, mode, divergences, oracle_fails, stats, distinct, note)
 
 def run_c11(R, r, rep, stats, lens, mode, vcache, thorough, divergences, oracle_fails, distinct):
     n_cases = 170 if not thorough else 1600
-    n_full = 6 if not thorough else 60            # cases with ALL single-bit corruptions
+    n_full = 5 if not thorough else 60            # cases with ALL single-bit corruptions
     n_sample = 16 if not thorough else 60         # sampled corruptions per remaining case
     cases = make_signed_cases(R, r, n_cases, lens)
     stats["signed_cases"] = len(cases)
@@ -737,7 +737,7 @@ def run_c11(R, r, rep, stats, lens, mode, vcache, thorough, divergences, oracle_
             if len(cq[0].d.path) == want and cq not in full:
                 full.append(cq)
                 break
-    if order and order[-1] not in full:
+    if thorough and order and order[-1] not in full:
         full.append(order[-1])
     for cq in good:
         if len(full) >= n_full:
